@@ -211,7 +211,7 @@ func (v *V) buildRoute(c px.Context) px.Value {
 			}
 			return a
 		case "addall":
-			return types.WrapValues(es[:n/2:n/2]).AddAll(types.WrapValues(es[n/2:]))
+			return types.WrapValues(es[: n/2 : n/2]).AddAll(types.WrapValues(es[n/2:]))
 		case "addall-entry":
 			// AddAll with a list that is not an Array
 			return types.WrapValues([]px.Value{}).AddAll(types.WrapHashEntry(es[0], es[1]))
@@ -320,7 +320,7 @@ func (v *V) buildHashRoute(c px.Context) px.Value {
 	}
 	dupFirst, dupMid, dupLast := map[int][]int{}, map[int][]int{}, map[int][]int{}
 	if n > 0 {
-		dupFirst[0] = []int{0}    // [k0,stale],[k0,v0],[k1,v1],...: new keys follow the repeated one
+		dupFirst[0] = []int{0}     // [k0,stale],[k0,v0],[k1,v1],...: new keys follow the repeated one
 		dupMid[n/2] = []int{n / 2} // ...,[km,stale],[km,vm],...
 		dupLast[n-1] = []int{n - 1}
 	}
